@@ -603,7 +603,7 @@ def enumerate_cases(ctx):
     # ---- JSON: arrays -----------------------------------------------------------------------------------
     shapes = SHAPES_QUICK if quick else SHAPES_QUICK + SHAPES_MORE
     ctx.scope('save_json/load_json arrays: dtypes %s x shapes %s (rank 0..3, empty, the 9/10/11-item threshold in 1-D and 2-D) x layouts %s '
-              'x fills {ramp, dtype extremes incl. nan/inf/-0.0/min/max}; each alone under a string key' % (ALL_DTYPES, shapes, list(LAYOUTS)))
+              'x fills {ramp, dtype extremes incl. nan/inf/-0.0/min/max}%s; each alone under a string key' % (ALL_DTYPES, shapes, list(LAYOUTS), ' (quick: ramp fill only for C/strided; rev/view/bcast for 7 of the dtypes)' if quick else ''))
     for dt in ALL_DTYPES:
         for shape in shapes:
             for layout in LAYOUTS:
@@ -612,7 +612,9 @@ def enumerate_cases(ctx):
                 for fill in (0, 1):
                     if quick and fill == 0 and layout not in ('C', 'strided'):
                         continue
-                    if dt == 'longdouble' and len(shape) == 1 and 1 <= shape[0] <= 10 and (layout not in ('C', 'strided') or fill == 0):
+                    if quick and layout in ('rev', 'view', 'bcast') and dt not in ('bool', 'int16', 'uint64', 'float32', 'complex128', '>f8', '>i2'):
+                        continue
+                    if dt == 'longdouble' and len(shape) == 1 and 1 <= shape[0] <= 10 and (layout not in ('C', 'strided') or fill == 0 or (quick and shape[0] not in (3, 10))):
                         continue  # known class (save_json recurses to the interpreter limit, ~0.1 s each): C and strided witnesses suffice
                     ctx.run('json', {'entries': [[['s', 'arr'], ['nd', dt, shape, layout, fill]]]})
     ctx.scope('save_json/load_json arrays in nested positions: array inside a list, inside a nested dict, inside a list inside a dict, two arrays side by side')
